@@ -68,9 +68,8 @@ def _dataclass_parameters(class_: Class) -> list[Parameter]:
     # Fetch `@dataclass` arguments if any.
     dec_args = _dataclass_arguments(class_.decorators)
 
-    # Parameters not added to `__init__`, return empty list.
-    if dec_args.get("init") == "False":
-        return []
+    # NOTE: `@dataclass(init=False)` only prevents generating `__init__` for this class (see `_set_dataclass_init`),
+    # its fields are still fields of the dataclass subclasses.
 
     # All parameters marked as keyword-only.
     kw_only = dec_args.get("kw_only") == "True"
